@@ -45,7 +45,7 @@ PROPS = {
         'partial': "the false-positive-rate clause is decided by the structural theorems (bits are addressed injectively, add sets exactly the probe positions, contains checks exactly them, the array is the smallest power of two >= the design size) plus a deterministic measurement on the implementation with well-mixed hashes (alarm threshold 10 p + 0.01); a probabilistic theorem about seahash is out of reach",
     },
     'C03': {
-        'suites': [('cacheq', 300, 3000, ''), ('cachet', 150, 1500, ''), ('cacheqa', 100, 1000, ''), ('cacher', 150, 1500, '')],
+        'suites': [('cacheq', 300, 3000, ''), ('cachet', 150, 1500, ''), ('cacheqa', 100, 1000, ''), ('cacher', 150, 1500, ''), ('stress', 100, 1000, '')],
         'rule': CACHE_RULE % "Cache and AsyncCache" + "TTLs from {1 ns, 0.5 s, 999 999 999 ns, 1 s, 1 s + 1 ns, 1.5 s, 2.3 s, 59 s, 1 h}, clock advances that land on and around second boundaries, re-inserts switching TTL <-> none, neighbours sharing expiry seconds; monitors: nothing served at or after created+ttl, get_ttl = remaining, no-TTL entries always served; non-trivial = every case (>= 20 operations with quiescence between them)",
         'assumptions': COMMON_ASSUMPTIONS + ["the clock is monotone (elapsed().unwrap() panics otherwise; modelled as StepPanic)", "created + d < 2^64 ns"],
         'partial': "",
@@ -99,7 +99,7 @@ PROPS = {
         'partial': "",
     },
     'C20': {
-        'suites': [('cachecfg', 400, 4000, ''), ('sketch', 150, 1500, ''), ('bloom', 150, 1500, ''), ('keys', 1, 1, ''), ('ticker', 1, 1, ''), ('defaults', 1, 1, '')],
+        'suites': [('cachecfg', 400, 4000, ''), ('sketch', 150, 1500, ''), ('bloom', 150, 1500, ''), ('keys', 1, 1, ''), ('ticker', 1, 1, ''), ('defaults', 1, 1, ''), ('stress', 100, 1000, '')],
         'rule': CACHE_RULE % "Cache and AsyncCache" + "configurations drawn from num_counters {1..70, 127, 129, 1000}, max_cost {-5, 1, 2, 57, 100, 300}, insert buffer {1, 2, 3, 16}, buffer_items {0, 1, 2, 3, 64}, metrics on/off, ignore_internal_cost on/off, both flavours, followed by inserts (with TTL), lookups, removes, ticks, evictions, clear, close; any panic in a client call or in a worker is caught by the harness (catch_unwind in every actor) and reported; a worker that died shows up as a state divergence or a stuck client; plus the builder's validation (keys suite: zero num_counters / max_cost / buffer size in every combination, on both builders) and sketch/doorkeeper construction for widths 0..70, 127, 129, 1000",
         'assumptions': COMMON_ASSUMPTIONS + ["the clock is monotone (SystemTime going backwards makes Time::elapsed panic: outside the property's quantifier)", "key hashes are u64", "doorkeeper sizing: probes * 2^ceil(log2(max(entries,512))) <= 2^64, i.e. the filter fits in memory"],
         'partial': "'any positive cleanup interval': the ticker is a label in the model and a controllable channel in the cache suites; the real timers are exercised by the suite ticker for two intervals only (a measurement with loose bounds, not a theorem); memory exhaustion for huge num_counters is outside the model",
@@ -117,7 +117,7 @@ PROPS = {
         'partial': "ratio() = hits / (hits + misses) is f64 arithmetic over the two modelled counters: computed and compared by the harness (suite cachet), not a Coq statement; striping of each counter over 256 atomics is abstracted to its sum (stripe index (hash % 25) * 10 < 256)",
     },
     'C19': {
-        'suites': [('cachepair', 200, 2000, ''), ('cacheqa', 200, 2000, ''), ('cachesa', 200, 2000, ''), ('cachecfg', 100, 1000, ''), ('defaults', 1, 1, '')],
+        'suites': [('cachepair', 200, 2000, ''), ('cacheqa', 200, 2000, ''), ('cachesa', 200, 2000, ''), ('cachecfg', 100, 1000, ''), ('defaults', 1, 1, ''), ('stress', 100, 1000, '')],
         'rule': CACHE_RULE % "Cache and AsyncCache" + "suite cachepair: every case is one scripted quiescent history (inserts with TTL / costers / validators, updates, lookups, removes, max-cost changes, clock advances, ticks, clear, close, evictions and rejections under tight max_cost) run on Cache and on AsyncCache with the same seeds and the same deterministic internal hasher; each run is compared step by step with the model (flavour flag off / on) and the two runs are compared with each other: every return value, remaining TTL, callback multiset and the full quiescent snapshot (store, expiry buckets, charges, metrics, histogram, sketch, doorkeeper) must be identical; suites cacheqa / cachesa / cachecfg drive the async flavour alone (quiescent, scheduled, every configuration) against the same model as the sync flavour",
         'assumptions': COMMON_ASSUMPTIONS + ["executor: the harness supplies a thread-per-task spawner and steps the two background tasks in every order its scheduler draws; other executors (single-threaded pool, multi-threaded pool) change only which OS thread polls a task between yield points, which the model does not distinguish"],
         'partial': "'any executor supplied as spawner' is runtime behaviour: one spawner (thread per task, block_on) is exercised, with every polling order of the two background tasks at yield-point granularity; 'satisfies every property above' holds because the theorems of C01-C18, C20 are proved for the one transition function that serves both flavours",
